@@ -432,6 +432,17 @@ def check_b(ck, repo):
             ck.unknown("C14.b", fi, f"n-gram section: window = {str(a[k])[:70]}", "the value appended is not the join of a window of the tokens in a form this analysis expands")
             continue
         ck.verdict(a[k] == b[k], "C14.b", fi, f"n-gram section: {k} = {str(a[k])[:70]}", f"identical to {owner}._word_ngrams (expanded, local names renamed, join function abstracted)", f"the n-gram section differs from {owner}._word_ngrams in its {k}: {a[k]} vs {b[k]}: the set or order of n-grams is not scikit-learn's")
+    # the override is a function of (tokens, stop_words, ngram_range): it reads no fitted state and
+    # does not touch the list it returns after the n-gram section
+    site_ = _append_site(mine_fi)
+    if site_ is not None:
+        outer_ = site_[4]
+        endl = max((getattr(n_, "lineno", 0) for n_ in ast.walk(outer_)), default=outer_.lineno)
+        rn_ = {ast.unparse(r_.value) for r_ in ast.walk(fi.node) if isinstance(r_, ast.Return) and isinstance(r_.value, ast.Name)}
+        late = [s_ for s_ in ast.walk(fi.node) if isinstance(s_, (ast.Assign, ast.AugAssign)) and s_.lineno > endl and any(isinstance(t_, ast.Name) and t_.id in rn_ for t_ in (s_.targets if isinstance(s_, ast.Assign) else [s_.target]))]
+        ck.verdict(not late, "C14.b", fi, late[0] if late else "nothing rebinds the returned list after the n-gram section", "the list of n-grams is returned as built", f"the returned list is rebuilt after the n-gram section ({src_of(late[0])[:70] if late else ''}): n-grams are dropped or changed after scikit-learn's algorithm produced them")
+    fitted_reads = sorted({n_.attr for n_ in ast.walk(fi.node) if isinstance(n_, ast.Attribute) and isinstance(n_.value, ast.Name) and n_.value.id == "self" and n_.attr.endswith("_") and not n_.attr.startswith("_")} | {c_.args[1].value for c_ in ast.walk(fi.node) if isinstance(c_, ast.Call) and ast.unparse(c_.func) in ("getattr", "hasattr") and len(c_.args) >= 2 and ast.unparse(c_.args[0]) == "self" and isinstance(c_.args[1], ast.Constant) and isinstance(c_.args[1].value, str) and c_.args[1].value.endswith("_")})
+    ck.verdict(not fitted_reads, "C14.b", fi, f"fitted attributes read: {fitted_reads}", "the n-grams of a document do not depend on what a previous fit learnt", f"_word_ngrams reads the fitted attribute(s) {fitted_reads}: what a second fit (or fit_transform) of the same instance extracts depends on the vocabulary of the first one")
     mine_b = [x for x in a["bindings"]]
     their_b = [x for x in b["bindings"]]
     extra = [x for x in mine_b if x not in their_b]
